@@ -47,6 +47,7 @@ def run(ctx: Ctx, rep: Report) -> None:
     rep.rule("C06-R2", "the modules that register the SNMP types are imported unconditionally from the package root", floor=1)
     rep.rule("C06-R3", "decoders read fields in the order and at the index / mask their encoders and the RFCs use", floor=5)
     rep.rule("C06-R4", "unsigned application types decode unsigned", floor=4)
+    rep.rule("C06-R8", "the SNMPv3 encoders emit every field as stored, in the layout the decoders read: decode followed by encode reproduces the message (shared with C05-R4)", floor=6)
     rep.rule("C06-R7", "error responses decode into the exception of their status with the binding selected by error-index (shared with C08-R1/R3/R4)", floor=2)
     rep.rule("C06-R6", "encrypted responses: the decrypted octets are parsed unmodified and replace only the ciphertext (shared with C11-R2)", floor=2)
     rep.rule("C06-R5", "operations hand every response value (exception markers included) to the caller: complete, unfiltered, in order (get / getnext / set: shared with C04-R3/R5)", floor=6)
@@ -269,6 +270,9 @@ def run(ctx: Ctx, rep: Report) -> None:
     # a response with a non-zero error-status is decoded into the documented exception, naming the binding its
     # error-index selects (index 0 / out of range: none) - never into data
     rep.adopt_rules(ctx.sub_run("c08", rep), "C06-R7", ["C08-R1", "C08-R3", "C08-R4"])
+    # decoded messages are serialised again (the incoming digest is computed over the re-serialisation): the encoders
+    # must emit every field exactly as the decoders stored it
+    rep.adopt_rules(ctx.sub_run("c05", rep), "C06-R8", ["C05-R4"])
     # the pythonic view of a value is total: every tick count (0 included) becomes a timedelta
     rep.adopt_rules(ctx.sub_run("c17", rep), "C06-R5", ["C17-R2"])
 
